@@ -308,6 +308,18 @@ func place(t tv, pos string) (*project, verdict) {
 		}
 		return v
 	}
+	// const: true fixes the value to the example of the element that carries the rule;
+	// in a type that example is the witness
+	if c, ok := ruleValue(t.Rules, "const"); ok && c == "true" && t.Lit != t.Witness && self == accept {
+		switch pos {
+		case "type-rule", "type-rule-in-type":
+			self = reject
+		case "or-types", "or-types-in-item":
+			if litKind(t.Lit) != "boolean" {
+				self = reject
+			}
+		}
+	}
 	switch pos {
 	case "root":
 		return &project{Root: node}, self
@@ -399,6 +411,15 @@ func c01Combined(t tv) []tv {
 	with(append([]string{ty}, t.Rules...), "type-first")
 	with(append(append([]string{}, t.Rules...), ty), "type-last")
 	return out
+}
+
+func ruleValue(rules []string, name string) (string, bool) {
+	for _, r := range parseRules(rules) {
+		if r.name == name {
+			return r.val, true
+		}
+	}
+	return "", false
 }
 
 func hasRule(rules []string, name string) bool {
@@ -537,6 +558,11 @@ func c01TypedValues(thorough bool, visit func(tv)) {
 		}
 		visit(tv{Lit: v, Rules: []string{"const: true"}, Witness: v, Family: "const"})
 		visit(tv{Lit: v, Rules: []string{"const: false"}, Witness: v, Family: "const"})
+		// a type whose example is another value of the same kind
+		if o, ok := map[string]string{"1": "2", "1.5": "2.5", `"a"`: `"b"`, "true": "false", "false": "true"}[v]; ok {
+			visit(tv{Lit: v, Rules: []string{"const: true"}, Witness: o, Family: "const-other"})
+			visit(tv{Lit: v, Rules: []string{"const: false"}, Witness: o, Family: "const-other"})
+		}
 		visit(tv{Lit: v, Rules: []string{"nullable: true"}, Witness: v, Family: "nullable"})
 		for _, c := range []string{"true", "false"} {
 			visit(tv{Lit: v, Rules: []string{"const: " + c, "nullable: true"}, Witness: v, Family: "const-nullable"})
